@@ -455,7 +455,7 @@ func TestVerifC11(t *testing.T) {
 			}
 		}
 		// copyAsm (prefix copy of ensureCapacity): every length 0..130, both placements
-		for n := 1; n <= 130 && asmDirectAvailable; n++ {
+		for n := 1; n <= 130 && asmHelpersAvailable; n++ {
 			for _, place := range []int{hk.PlaceEnd, hk.PlaceStart} {
 				srcV := rng.Bytes(n)
 				src := gs.get("src", srcV, place)
@@ -476,7 +476,7 @@ func TestVerifC11(t *testing.T) {
 		}
 		// copyAsm at EVERY alignment of source and destination and every short length, inside larger buffers whose
 		// surroundings are canaries (the page-edge placements above fix the alignment to the length)
-		for sa := 0; sa < 16 && asmDirectAvailable; sa++ {
+		for sa := 0; sa < 16 && asmHelpersAvailable; sa++ {
 			for da := 0; da < 16; da += 1 + sa%3 {
 				for n := 0; n <= 40; n++ {
 					sbuf, dbuf := rng.Bytes(96), bytes.Repeat([]byte{0xC7}, 96)
